@@ -50,7 +50,7 @@ var realStub = []string{
 	"real: go-res root package, store, store/badgerstore, store/mockstore, resprot, middleware, logger (built from /repo working tree with -tags verif)",
 	"real: jirenius/timerqueue v1.0.0 on the bubble's fake clock",
 	"real with yield points: jirenius/taskqueue v1.1.0 (verbatim copy under sim/third_party with yield points before enqueueing, after a wake-up from a full queue and before the worker takes the next task; its capacity in badgerstore is varied per run through a verif-tagged hook)",
-	"real with one yield point: dgraph-io/badger v1.6.2 on real files under a per-run temp directory (the build step copies the module to a scratch directory and makes DB.Update yield between the user's function and the commit)",
+	"real with three yield points: dgraph-io/badger v1.6.2 on real files under a per-run temp directory (the build step copies the module to a scratch directory and makes DB.View and DB.Update yield before the transaction starts and DB.Update between the user's function and the commit)",
 	"stub: jirenius/keylock (scheduler-visible re-implementation with the same API and RW semantics)",
 	"stub: NATS server (in-process routing model); tier A replaces the nats.go client by SimConn",
 	"real: sync, time, goroutines inside a testing/synctest bubble (fake clock, quiescence detection); which parked goroutine proceeds is decided by the tape",
